@@ -344,9 +344,13 @@ def _case_worker(task):
     rng = random.Random(f"{seed}:{idx}")
     with warnings.catch_warnings():
         warnings.simplefilter("ignore")
-        feat = {"custom": True, "generic": True, "func_if": True, "ml": True}
+        feat = {"custom": True, "generic": True, "func_if": True, "ml": True, "inline_sibling_names": True}
         if mode == "naming":  # no version adaptation: every name is predictable
-            feat = {"mixed": False, "rmax": False, "custom": True, "generic": True, "func_if": True, "ml": True}
+            feat = {"mixed": False, "rmax": False, "custom": True, "generic": True, "func_if": True, "ml": True,
+                    "inline_sibling_names": True}
+        if mode == "oracle" and rng.random() < 0.25:
+            feat["newer_only_in_funcs"] = True
+            feat["inline"] = False  # (inlined models bring their own opset imports)
         g = L.Gen(rng, feat)
         spec = g.gen_spec()
         st, m = L.build_spec(spec)
@@ -378,24 +382,32 @@ def custom_keys(spec):
 
 
 def classify(bad):
+    import re
+
     kinds = [k for k, _ in bad]
     if "missing-function" in kinds:
         return "function-used-but-not-defined"
-    for k in ("walker", "full-checker", "strict-inference", "ort-load"):
+    walker = [d for k, d in bad if k == "walker"]
+    if walker:
+        # duplicates that only occur between sibling bodies, under inlined-model names, are the known finding
+        # `inline:sibling-bodies-share-names`; any other walker problem comes first
+        sib = [d for d in walker if re.match(r"dup-(value|node-name)-in-sibling-bodies:.*Inline_\d+__", d)]
+        other = [d for d in walker if d not in sib]
+        if not other and not [k for k in kinds if k != "walker"]:
+            return "inline:sibling-bodies-share-names"
+        if other:
+            d = other[0]
+            if re.fullmatch(r"dup-value:.+___v_\d+", d):
+                # a user name equal to a value the version converter introduces (qualified by the node name)
+                return "dup-value:user-name-equals-converter-name"
+            if re.fullmatch(r"dup-value:_v_\d+", d):
+                # a fresh name of onnx.version_converter kept by per-node adaptation (former finding)
+                return "dup-value:version-converter-fresh-name"
+            if d.startswith("function "):
+                return "walker-in-function:" + d.split(": ", 1)[1].split(":")[0]
+            return "walker:" + d.split(":")[0]
+    for k in ("full-checker", "strict-inference", "ort-load"):
         if k in kinds:
-            d = next(d for kk, d in bad if kk == k)
-            if k == "walker":
-                import re
-
-                if re.fullmatch(r"dup-value:.+___v_\d+", d):
-                    # a user name equal to a value the version converter introduces (qualified by the node name)
-                    return "dup-value:user-name-equals-converter-name"
-                if re.fullmatch(r"dup-value:_v_\d+", d):
-                    # a fresh name of onnx.version_converter kept by per-node adaptation (known finding)
-                    return "dup-value:version-converter-fresh-name"
-                if d.startswith("function "):
-                    return "walker-in-function:" + d.split(": ", 1)[1].split(":")[0]
-                return "walker:" + d.split(":")[0]
             return k
     return "invalid"
 
@@ -437,6 +449,23 @@ def observe_final_check(specs):
 
 
 HAND_SPECS = [
+    # known finding inline:sibling-bodies-share-names: an inlined model whose two If branches both call a value
+    # `tmp` and a node `n` (valid ONNX: sibling scopes)
+    {"args": ["f", "b"], "inputs": [["x", 0], ["c", 1]], "stmts": [["inline", 0, [0, 1]]],
+     "outputs": [["y", 2]], "drop": False, "funcs": [],
+     "models": [{"ins": ["a"], "cond": "cnd", "outs": ["r"], "inits": [], "opset": 17,
+                 "nodes": [["If", "if0", ["cnd"], ["r"],
+                            [[["Neg", "n", ["a"], ["tmp"]]], "tmp", [["Abs", "n", ["a"], ["tmp"]]], "tmp"]]]}]},
+    # a newer opset version required ONLY inside a function body (called outside the If) + a v17 Split inside an If
+    # branch: the branch has to be adapted against the model's opset 19 (Split 18 needs `num_outputs`)
+    {"args": ["f", "b"], "inputs": [["x", 0], ["c", 1]],
+     "stmts": [["call", 0, [0]],
+               ["if", 1, {"stmts": [["op", "split0", 17, [0]]], "outs": [3]}, {"stmts": [], "outs": [0]}, 17],
+               ["op", "add", 17, [2, 3]]],
+     "outputs": [["y", 4]], "drop": False,
+     "funcs": [{"name": "newer", "domain": "dom", "nin": 1, "nout": 1,
+                "body": {"stmts": [["op", "identity", 19, [0]]], "outs": [1]}}],
+     "models": []},
     # former finding (fixed by 1c7785c): a model output named like a value the version converter introduces
     {"args": ["b", "f"], "inputs": [["c", 0], ["x", 1]],
      "stmts": [["if", 0, {"stmts": [["op", "rmax", 17, [1]], ["op", "identity", 19, [2]]], "outs": [3]},
